@@ -7,46 +7,46 @@ Open Scope N_scope.
 
 (* The property as stated: for EVERY history both stores answer like one user map (restarts do nothing). *)
 Definition C31_statement (admin : user) : Prop :=
-  forall h, file_answers admin false h = spec_answers admin h /\ db_answers admin false h = spec_answers admin h.
+  forall cap h, file_answers admin false h = spec_answers admin h /\ db_answers admin false cap h = spec_answers admin h.
 
-(* For every default user and every history of write / delete / read / list / permissions / has-permission /
+(* For every default user, every capacity of the AuthCache (0 included) and every history of write / delete / read / list / permissions / has-permission /
    set-permission / flush / restart / cache purge that never deletes the default user, the file store and the
    database store (tree with fix c4473c50) both give exactly the answers of the abstract user map. *)
 Theorem C31_both_refine_spec_partial :
-  forall admin h, guard admin h = true ->
-    file_answers admin false h = spec_answers admin h /\ db_answers admin false h = spec_answers admin h.
-Proof. intros admin h Hg. split; [apply file_refines | apply db_refines]; exact Hg. Qed.
+  forall admin cap h, guard admin h = true ->
+    file_answers admin false h = spec_answers admin h /\ db_answers admin false cap h = spec_answers admin h.
+Proof. intros admin cap h Hg. split; [apply file_refines | apply db_refines]; exact Hg. Qed.
 
 Theorem C31_stores_agree_partial :
-  forall admin h, guard admin h = true -> file_answers admin false h = db_answers admin false h.
-Proof. intros admin h Hg. rewrite file_refines, db_refines by exact Hg. reflexivity. Qed.
+  forall admin cap h, guard admin h = true -> file_answers admin false h = db_answers admin false cap h.
+Proof. intros admin cap h Hg. rewrite file_refines, (db_refines admin cap) by exact Hg. reflexivity. Qed.
 
 (* a flush + close + reopen (fresh cache) inserted at any point changes no later (or earlier) answer, on either store *)
 Theorem C31_reopen_partial :
-  forall admin h1 h2, guard admin (h1 ++ h2) = true ->
+  forall admin cap h1 h2, guard admin (h1 ++ h2) = true ->
     exists l1 l2, List.length l1 = List.length h1 /\
       file_answers admin false (h1 ++ h2) = l1 ++ l2 /\
       file_answers admin false (h1 ++ OReopen :: h2) = l1 ++ AOk :: l2 /\
-      db_answers admin false (h1 ++ h2) = l1 ++ l2 /\
-      db_answers admin false (h1 ++ OReopen :: h2) = l1 ++ AOk :: l2.
+      db_answers admin false cap (h1 ++ h2) = l1 ++ l2 /\
+      db_answers admin false cap (h1 ++ OReopen :: h2) = l1 ++ AOk :: l2.
 Proof.
-  intros admin h1 h2 Hg.
+  intros admin cap h1 h2 Hg.
   assert (Hg' : guard admin (h1 ++ OReopen :: h2) = true).
   { rewrite guard_app in *. apply andb_true_iff in Hg as [G1 G2]. rewrite G1. cbn. exact G2. }
   destruct (spec_reopen admin h1 h2) as (l1 & l2 & HL & HA & HB).
-  exists l1, l2. rewrite !file_refines, !db_refines by assumption. repeat split; assumption.
+  exists l1, l2. rewrite !file_refines, !(db_refines admin cap) by assumption. repeat split; assumption.
 Qed.
 
 (* without the guard the statement fails: the database store re-creates a deleted default user on every start,
    the file store only when no user is left (known finding default-user-recreated-on-reopen) *)
 Theorem C31_default_user_refuted :
-  exists h, file_answers demo_admin false h <> db_answers demo_admin false h.
+  exists h, file_answers demo_admin false h <> db_answers demo_admin false 1000 h.
 Proof. exists witness_default. exact default_user_refuted. Qed.
 
 (* the pinned setPermission (u.Permissions == nil) is refuted inside the guard *)
 Theorem C31_old_refuted :
   exists h h', guard demo_admin h = true /\
-    file_answers demo_admin true h <> db_answers demo_admin true h /\
+    file_answers demo_admin true h <> db_answers demo_admin true 1000 h /\
     last (file_answers demo_admin true h) AOk <> last (file_answers demo_admin true h') AOk.
 Proof. exists witness_old, witness_old_noreopen. exact old_refuted. Qed.
 
@@ -56,5 +56,6 @@ Example C31_nonvacuous :
   guard demo_admin h = true /\
   file_answers demo_admin false h =
     [AOk; AOk; APerms []; AOk; AOk; AOk; APerms [L "logon"; L "x"]; AOk; AUser None; AUsers [demo_admin]] /\
-  db_answers demo_admin false h = file_answers demo_admin false h.
+  db_answers demo_admin false 1 h = file_answers demo_admin false h /\
+  db_answers demo_admin false 1000 h = file_answers demo_admin false h.
 Proof. vm_compute. repeat split; reflexivity. Qed.
